@@ -3,6 +3,8 @@ import ClockBound.Properties.CodeTieLeap
 import ClockBound.Properties.CodeTieExtract
 import ClockBound.Properties.CodeTieUpdater
 import ClockBound.Properties.CodeTieDrift
+import ClockBound.Properties.CodeTieGen
+import ClockBound.Proofs.RsLoopDemo
 open ClockBound
 #print axioms CodeTieClient.compute_bound_at_eq
 #print axioms CodeTieClient.compute_bound_at_not_stuck
@@ -13,3 +15,8 @@ open ClockBound
 #print axioms CodeTieUpdater.process_missing_eq
 #print axioms CodeTieUpdater.new_eq
 #print axioms CodeTieDrift.max_drift_ppb_eq
+#print axioms CodeTieGen.write_events_eq
+#print axioms CodeTieGen.write_not_stuck
+#print axioms Rs.LoopDemo.sum_below_eq
+#print axioms Rs.evalWhile_iterate
+#print axioms Rs.evalFor_iterate
